@@ -38,6 +38,7 @@ type op struct {
 	HS    bool   `json:"hs,omitempty"` // save a hard state together with the entries
 	Index uint64 `json:"index,omitempty"`
 	Tail  int    `json:"tail,omitempty"` // snapshot install carries this many entries after it
+	Reuse bool   `json:"reuse,omitempty"` // delete: keep using the same store object (what partition.unloadRaft/loadRaft does)
 }
 
 func (o op) String() string {
@@ -50,6 +51,9 @@ func (o op) String() string {
 		return fmt.Sprintf("g%d.Save(received snapshot @%d t%d, +%d entries)", o.G, o.Index, o.Term, o.Tail)
 	case "create":
 		return fmt.Sprintf("g%d.CreateSnapshot(%d)", o.G, o.Index)
+	}
+	if o.Reuse {
+		return fmt.Sprintf("g%d.%s(same object reused)", o.G, o.Kind)
 	}
 	return fmt.Sprintf("g%d.%s", o.G, o.Kind)
 }
@@ -126,8 +130,13 @@ func (w *world_) apply(o op) (key, desc string) {
 		if err := g.w.DeleteGroup(); err != nil {
 			return "delete-error", fmt.Sprintf("%v: %v", o, err)
 		}
-		g.alive = false
-		w.open(g) // a later store for the same group id must be indistinguishable from a fresh one
+		if o.Reuse {
+			// the partition keeps its store object across unloadRaft/loadRaft: the same object must now behave like a fresh one
+			g.ref = etcdRaft.NewMemoryStorage()
+		} else {
+			g.alive = false
+			w.open(g) // a later store for the same group id must be indistinguishable from a fresh one
+		}
 	case "append":
 		var es []raftpb.Entry
 		for i := 0; i < o.N; i++ {
@@ -441,6 +450,7 @@ func (w *world_) enabled(multi bool) []op {
 		}
 		if multi && last >= first {
 			out = append(out, op{G: gi, Kind: "delete"})
+			out = append(out, op{G: gi, Kind: "delete", Reuse: true})
 		}
 	}
 	return out
